@@ -22,6 +22,7 @@ RULE = ("case = (RPDO/TPDO, PDO number in {1..4, 5, 64, 511, 512}, COB-ID over 1
         "DefaultValue)); the device starts enabled with a different mapping and refuses out-of-order writes. Signature = "
         "(kind, number class, cob class, enabled, rtr, trans class, n mapped, optional subs, source); non-trivial = at least "
         "one mapped object or enabled.")
+RULE += (" " + 'Widened later: a second configuration saved through the same map object, devices lacking a described optional sub-entry (four abort codes), the unused-PDO entry 0x80000000, ARRAY-declared mapping parameters, saves after a transiently refused save.')
 ASSUMPTIONS = ["devices with a permanently read-only mapping count (the library's _fill_map workaround) are outside the property; a transient refusal before the judged save is part of 'every prior state of the device'",
                "bit 29 (frame format) written by the library is not judged; a device or dictionary reporting it must still read back as the same 29-bit COB-ID", "optional timers are compared for transmission types 254/255 only"]
 REQUIRED = {"saves_checked": 200, "readbacks_compared": 200, "device_writes_logged": 1000}
